@@ -1372,3 +1372,5 @@ if __name__ == "__main__":
     src2v3_reader.main()
     main3()
     main3r()
+    import src2v3_enc  # work package encT: coq/gen/Src3e.v, reading side of the encryption layer (fails closed per item)
+    src2v3_enc.main()
